@@ -94,6 +94,8 @@ package protocol
 //@   assert @C17 before IndexByte#0: hexTablesInverse() && argTablesFacts()
 //@   assert @C17 before append#3: old(isArgEncoding(src)) && !sameArray(old(dst), src) && 0 <= qk && qk < qn && i == qpos[qk] ==> escArg(qx[qk]) && qx[qk] != ' '
 //@   assert @C17 before append#3: old(isArgEncoding(src)) && !sameArray(old(dst), src) && 0 <= qk && qk < qn && i == qpos[qk] ==> src[i+1] == hexU(qx[qk] / 16) && src[i+2] == hexU(qx[qk] % 16) && qpos[qk+1] == i + 3
+//@   assert @C17 before append#3: x1 == hexv(src[i+1]) && x2 == hexv(src[i+2])
+//@   assert @C17 before append#3: old(isArgEncoding(src)) && !sameArray(old(dst), src) && 0 <= qk && qk < qn && i == qpos[qk] ==> 0 <= qx[qk] / 16 && qx[qk] / 16 < 16 && hexv(hexU(qx[qk] / 16)) == qx[qk] / 16 && hexv(hexU(qx[qk] % 16)) == qx[qk] % 16
 //@   assert @C17 before append#3: old(isArgEncoding(src)) && !sameArray(old(dst), src) && 0 <= qk && qk < qn && i == qpos[qk] ==> x1 == qx[qk] / 16 && x2 == qx[qk] % 16
 //@   assert @C17 before append#4: old(isArgEncoding(src)) && !sameArray(old(dst), src) && 0 <= qk && qk < qn && i == qpos[qk] ==> qx[qk] == ' ' && qpos[qk+1] == i + 1
 //@   assert @C17 before append#5: old(isArgEncoding(src)) && !sameArray(old(dst), src) && 0 <= qk && qk < qn && i == qpos[qk] ==> qx[qk] == c && qpos[qk+1] == i + 1
